@@ -24,6 +24,8 @@ func init() {
 		c.Run.Floor("K-CALLBACK/once", 1)
 		c.Run.Floor("K-CALLBACK/args", 2)
 		c.RunSkeletons(SkelOpts{Rules: []string{"K-CALLBACK", "K-FLOW", "K-LOCK/defer", "K-NILFUNC/guard", "G-DATA/params", "G-DATA/methods"}})
+		// signature and call site are rendered by separate helpers: they agree only if rendering is a pure function of the data
+		gen.CheckPure(c.Run, c.Prog, "G-PURE/render-helpers")
 	})
 	register("C04", "other", func(c *Ctx) {
 		skeletonExplain(c, "C04 (every call recorded, in order, exact arguments): exactly one `x = append(x, rec)` per method on a record slice, on every path to the callback and to every normal exit; rec is defined once by a struct literal with one keyed field per parameter in order, named Exported(param) and set to that parameter, of the slice's element type; the only writers of record slices anywhere are append-one and `= nil` (so a returned header is never written below its length and a reset never reuses its array); the accessor returns exactly the header read under the lock; all mock fields work from the zero value; the record is *readable* from inside MFunc (no lock of the mock is held while it runs, no deferred unlock).")
